@@ -926,6 +926,20 @@ start_function (GMarkupParseContext *context,
       found = (found || strcmp (element_name, "callback") == 0);
       in_embedded_state = ctx->state;
       break;
+    case STATE_UNION_FIELD:
+    case STATE_BOXED_FIELD:
+    case STATE_INTERFACE_FIELD:
+      /* Only record and class fields can embed a callback blob; elsewhere a
+       * function pointer member is described as an untyped pointer. */
+      if (strcmp (element_name, "callback") == 0 &&
+	  ctx->current_typed && ctx->current_typed->type == G_IR_NODE_FIELD &&
+	  ((GIrNodeField *)ctx->current_typed)->type == NULL)
+	{
+	  ((GIrNodeField *)ctx->current_typed)->type = parse_type (ctx, "gpointer");
+	  state_switch (ctx, STATE_PASSTHROUGH);
+	  return TRUE;
+	}
+      break;
     default:
       break;
     }
